@@ -140,22 +140,8 @@ theorem endOfHeaders_noBody (p p0 : P) (h : endOfHeaders p = .ok p0) : p0.noBody
     rcases parseTE_shape _ _ hq1 with ⟨_, e⟩ | ⟨_, _, _, _, e⟩ <;>
     rcases parseCL_shape _ _ h with ⟨_, e2⟩ | ⟨_, _, _, _, _, _, _, e2⟩ <;> subst e e2 <;> rfl
 
-theorem endOfHeaders_respNo (p p0 : P) (h : endOfHeaders p = .ok p0) : p0.respNo = p.respNo := by
-  simp only [endOfHeaders, bind, Except.bind] at h
-  split at h
-  · cases h
-  · rename_i q1 hq1
-    rcases parseTE_shape _ _ hq1 with ⟨_, e⟩ | ⟨_, _, _, _, e⟩ <;>
-    rcases parseCL_shape _ _ h with ⟨_, e2⟩ | ⟨_, _, _, _, _, _, _, e2⟩ <;> subst e e2 <;> rfl
-
 theorem noBodyOverride_bodyHeld (p : P) : (noBodyOverride p).bodyHeld = p.bodyHeld := by
   unfold noBodyOverride; split <;> rfl
-
-theorem framingOverride_bodyHeld (g : Cfg) (p : P) : (framingOverride g p).bodyHeld = p.bodyHeld := by
-  unfold framingOverride headOverride
-  split
-  · split <;> simp [noBodyOverride_bodyHeld]
-  · rfl
 
 /-! ### (b) the body bound -/
 
@@ -186,7 +172,7 @@ theorem byteStep_bodyHeld (g : Cfg) (p : P) (tok : Bytes) (c : UInt8) (p' : P) (
            rcases parseTE_shape _ _ hq1 with ⟨_, e⟩ | ⟨_, _, _, _, e⟩ <;>
            rcases parseCL_shape _ _ hq with ⟨_, e2⟩ | ⟨_, _, _, _, _, _, _, e2⟩ <;> subst e e2 <;> rfl
        have b := a _ _ h1
-       rcases addTrailerKeys_shape _ _ h2 with e | ⟨_, _, e⟩ <;> subst e <;> left <;> simpa [framingOverride_bodyHeld] using b)
+       rcases addTrailerKeys_shape _ _ h2 with e | ⟨_, _, e⟩ <;> subst e <;> left <;> simpa [noBodyOverride_bodyHeld] using b)
     | skip
 
 theorem byteStep_bodyInv (g : Cfg) (p : P) (tok : Bytes) (c : UInt8) (p' : P) (u : Upd) (evs : List Ev)
